@@ -10,9 +10,10 @@
                                scope, schema URLs, metric name/unit/description/type/temporality/
                                monotonicity/metadata)
      request  what a producer hands to the batching layer: a sequence of items
-     batch    [items, size, state, ok]  one call of the export function: the items as found in it,
-              its size in the configured unit MEASURED INDEPENDENTLY by the observer, whether the
-              call has returned ("open"/"closed") and with which result
+     batch    [items, reqs, size, state, ok]  one call of the export function: the items as found in
+              it, the requests whose containers (resources) are present in it, its size in the
+              configured unit MEASURED INDEPENDENTLY by the observer, whether the call has returned
+              ("open"/"closed") and with which result
      done     the completion callback of a request: observed as the list of its firings, each with
               the error flag it carried                                                        *)
 EXTENDS Integers, Sequences, FiniteSets, TLC
@@ -33,8 +34,9 @@ AllBatchIds    == BatchIdsUpTo(Len(batches))
 CtxOf(id)      == LET r == CHOOSE r \in DOMAIN entered : id \in ItemIds(entered[r])
                       i == CHOOSE i \in DOMAIN entered[r] : entered[r][i].id = id
                   IN entered[r][i].ctx
-\* the batches (of the sequence bs) that hold part of request r
-PartsIn(bs, r) == {k \in DOMAIN bs : ItemIds(bs[k].items) \cap ItemIds(entered[r]) # {}}
+\* the batches (of the sequence bs) that hold part of request r: some of its items, or (real payloads
+\* only) one of its containers even if no item of it came along
+PartsIn(bs, r) == {k \in DOMAIN bs : ItemIds(bs[k].items) \cap ItemIds(entered[r]) # {} \/ r \in bs[k].reqs}
 
 ---------------------------------------------------------------------------
 (* Clauses about ONE batch b, given the ids in the batches before it *)
